@@ -1,6 +1,7 @@
 import AvoVerif.Drv.Common
 import AvoVerif.Model.AsmText
 import AvoVerif.Model.AsmJudge
+import AvoVerif.Model.Instr
 import AvoVerif.Gen.Regs
 /-
 C05 driver.
@@ -11,6 +12,9 @@ C05 driver.
   accept-asm <desc> => ok <decoded> | rejected <hex msg> | panic
                                      → the verdict of Model/AsmJudge.lean on the assembled bytes
   mnem-unchecked                     → opcodes whose mnemonic is not compared
+  opclass <type> <op>                → 1/0: the operand is in the operand class named <type> (Model/Instr `OpClass.holds`,
+                                       characterised in Props/C06Classes.lean); exact comparison with the real predicate
+  accept-class <desc>                → every operand given is in the operand class the matched form names at its position
 -/
 namespace Avo.Drv.C05
 open Avo.Drv Avo.AsmText Avo.AsmJudge
@@ -169,6 +173,45 @@ def judgeLine (g : Given) (line : String) : String :=
   | none => "ok"
   | some why => if why == "ok" then "bad-verdict" else why
 
+/-! ## Operand classes of an accepted instruction (Model/Instr predicates on C05's operands) -/
+
+/-- identifier of a physical register: the `id` column of the regenerated register table (0 for pseudo registers) -/
+def regIdOf (h : HReg) : Nat :=
+  ((regTable.find? (fun r => r.kind == h.kind && r.idx == h.idx && r.mask == h.mask)).map (·.id)).getD 0
+
+def regV (h : HReg) : Avo.Instr.RegV := ⟨h.kind, h.size, regIdOf h, h.mask, 0⟩
+
+def immTyCode : ImmTy → Nat
+  | .u8 => Avo.Instr.tU8 | .u16 => Avo.Instr.tU16 | .u32 => Avo.Instr.tU32 | .u64 => Avo.Instr.tU64
+  | .i8 => Avo.Instr.tI8 | .i16 => Avo.Instr.tI16 | .i32 => Avo.Instr.tI32 | .i64 => Avo.Instr.tI64
+
+/-- the operand as the class predicates see it: register kind / width / identity, presence and registers of base and
+index, constant type and value; names of symbols and labels play no role in any class (`holds_mem_ignores`) -/
+def toInstrOp : XOp → Avo.Instr.Operand
+  | .reg r => .reg (regV r)
+  | .mem _ _ disp b i sc => .mem (b.map regV) (i.map regV) sc disp 0
+  | .imm t v => .imm (immTyCode t) v
+  | .rel v => .rel v
+  | .label _ => .label 0
+
+/-- class named by a word of a form signature (`vm32x`, `imm8`, `1`, …) -/
+def classOfWord (w : String) : Option Avo.Instr.OpClass :=
+  Avo.Instr.OpClass.all.find? (fun c => Avo.Name.key c.doc == Avo.Name.keyOfStr w)
+
+/-- first position whose operand is not in the class the signature names there; `none` = all operands are members -/
+def classErr : List String → List XOp → Nat → Option String
+  | [], [], _ => none
+  | t :: ts, x :: xs, i =>
+    match classOfWord t with
+    | none => some s!"bad-class-name {t}"
+    | some c => if c.holds (toInstrOp x) then classErr ts xs (i + 1) else some s!"bad-operand-not-in-class {i} {t}"
+  | _, _, i => some s!"bad-class-arity {i}"
+
+def judgeClass (g : Given) : String :=
+  match classErr g.sig g.ops 0 with
+  | none => "ok"
+  | some why => if why == "ok" then "bad-verdict" else why
+
 def handle : Handler
   | ["asm-text", tok] => do
     let x ← parseXOp tok
@@ -193,10 +236,17 @@ def handle : Handler
     | "rejected" :: _ => some "bad-rejected"
     | ["panic"] => some "bad-panic"
     | _ => none
+  | ["opclass", t, tok] => do
+    let c ← classOfWord t
+    let x ← parseXOp tok
+    some (if c.holds (toInstrOp x) then "1" else "0")
+  | "accept-class" :: rest => do
+    let g ← parseGiven rest
+    some (judgeClass g)
   | ["mnem-unchecked"] => some (joinSp (toString mnemUnchecked.length :: mnemUnchecked))
   | _ => none
 
 def handlers : List (String × Handler) :=
-  ["asm-text", "accept-parse", "accept-line", "accept-asm", "mnem-unchecked"].map (·, handle)
+  ["asm-text", "accept-parse", "accept-line", "accept-asm", "mnem-unchecked", "opclass", "accept-class"].map (·, handle)
 
 end Avo.Drv.C05
